@@ -477,6 +477,11 @@ class Project(MessageHandler):
             is_implicit_milestone = (start or end) and effort == 0 and duration == 0 and length == 0
 
             if is_explicit_milestone or is_implicit_milestone:
+                # Dates outside the project window are left to the main loop, which reports
+                # the task as not fitting instead of placing it outside the horizon
+                p_start, p_end = self.attributes.get("start"), self.attributes.get("end")
+                if p_start and p_end and any(d and not (p_start <= d <= p_end) for d in (start, end)):
+                    continue
                 # Only mark as scheduled if we can set both dates
                 # Milestones with dependencies but no dates need to go through normal scheduling
                 if start and not end:
